@@ -77,7 +77,7 @@ CheckRel(r) ==
   LET o == ParseOut(r.out, r.sep)
       b == ParseOut(r.base, r.sep)
   IN IF r.res # "ok" \/ r.bres # "ok" THEN Flag("MISMATCH", r.case, "a run did not succeed")
-     ELSE IF r.rel = "concat" /\ ~r.json          \* text / csv output: the relation is on the bytes
+     ELSE IF r.rel = "concat"                      \* the relation is on the bytes, whatever the output style (no title row in JSON styles: hdr is empty)
           \* r.hdr: what the same pipeline prints for an empty input (the csv / --headers title row), printed once per run
           THEN (IF ~IsPrefixOf(r.hdr, r.base2) \/ r.out # r.base \o SubSeq(r.base2, Len(r.hdr) + 1, Len(r.base2))
                 THEN Flag("MISMATCH", r.case, "concat: bytes differ") ELSE TRUE)
